@@ -70,7 +70,7 @@ def path(ctx, cfg):
             want = [spec["names"][c["j"]]] * len(edges)
         else:
             raw = spec["names"][c["j"]]()
-            want = [raw] if isinstance(raw, str) else list(raw)
+            want = [raw] if isinstance(raw, str) else list(raw)  # a fresh call of the naming callback (it may return a one-shot iterator)
         got = [row[1] for row in rows]
         ctx.require(got == want, "names", lambda: f"{desc}: motif id {i} carries names {got}, expected {want}",
                     twin=(got == want + ["x"]), sig="names")
